@@ -14,6 +14,7 @@ import re
 
 from .. import core
 from ..gen import b_builtins
+from ..gen import b_ctrl
 from ..gen import b_hostile as H
 from ..gen import b_sess
 
@@ -21,7 +22,8 @@ ID = "C02"
 LEVEL = "exploration"
 RULE = ("case = one program; classes: call (built-in x receiver x argument vector x arity), op (operator x type pair), "
         "rand (random ill-typed expression tree), redef (prelude type redefined, then a battery of built-in uses), "
-        "depth (recursion 10^3..10^5 frames, value nesting 10^2..10^5 built / printed / compared / dropped, wide values), "
+        "ctl (generated control flow: break / continue / return under if / match in while / for loops with earlier and later "
+        "sibling loops, nested loops, in functions, closures and at the toplevel), depth (recursion 10^3..10^5 frames, value nesting 10^2..10^5 built / printed / compared / dropped, wide values), "
         "run (the same programs through `garden run FILE`); a case is non-trivial when the program parsed and was "
         "evaluated; distinct key = (class, built-in or operator, argument runtime types, outcome template)")
 ASSUME = ["a process that ends by signal, exit status 101 or with 'panicked at' / 'overflowed its stack' on stderr crashed; "
@@ -30,7 +32,7 @@ ASSUME = ["a process that ends by signal, exit status 101 or with 'panicked at' 
           "effectful built-ins only receive paths inside the case's scratch directory and the commands true / echo / a non-existent name"]
 BATCH = 24
 FLOOR = {"quick": 400, "thorough": 800}
-BUDGET = {"quick": 32, "thorough": 780}
+BUDGET = {"quick": 28, "thorough": 780}
 
 _VOCAB = None
 
@@ -102,8 +104,11 @@ def gen_cases(tier, seed):
     ops = list(H.operator_cases(tier))
     random.Random(seed + 8).shuffle(ops)
     corpus = [{"t": "call", "src": s, "fn": f, "types": ["corpus"], "why": "corpus"} for s, f in CORPUS]
-    gens = [iter(corpus), iter(calls), iter(ops), _redef_cases(), _depth_cases(tier)]
-    for c in _roundrobin(gens, [3, 8, 11, 1, 1]):
+    ctl = [dict(c, t="ctl") for c in b_ctrl.enumerate_programs(full=(tier != "quick"))]
+    random.Random(seed + 9).shuffle(ctl)
+    ctl = ctl[:6000]
+    gens = [iter(corpus), iter(calls), iter(ops), _redef_cases(), _depth_cases(tier), iter(ctl)]
+    for c in _roundrobin(gens, [3, 6, 8, 1, 1, 5]):
         yield c
     yield {"_marker": "systematic", "builtins": len(v), "call_cases": len(calls), "operator_cases": len(ops),
            "space": "every built-in x (receivers, each position x pool, arities n-1..n+2); 21 operators and += -= x pool^2; "
@@ -113,7 +118,9 @@ def gen_cases(tier, seed):
     while True:
         k += 1
         j = rng.random()
-        if j < 0.55:
+        if j < 0.2:
+            yield dict(b_ctrl.random_program(rng), t="ctl")
+        elif j < 0.55:
             yield {"t": "rand", "src": eg.program()}
         elif j < 0.9:
             c = H.random_call(v, rng)
@@ -188,6 +195,8 @@ def judge_single(case, res):
         key = "call %s(%s) %s" % (case["fn"], ",".join(case["types"]), oc)
     elif cls == "op":
         key = "op %s %s %s" % (case["op"], ",".join(case["types"]), oc)
+    elif cls == "ctl":
+        key = "ctl %s %s" % (case["shape"], oc if oc.startswith("err") else "ok")
     else:
         key = "rand %s" % oc
     return {"status": "held", "key": key}
@@ -204,7 +213,7 @@ def run_batch(cases):
         os.makedirs(work)
         pre = [_subst(p, work) for p in H.PREAMBLE]
         # ---- single-input cases share one session
-        idx = [i for i, c in enumerate(cases) if c["t"] in ("call", "op", "rand")]
+        idx = [i for i, c in enumerate(cases) if c["t"] in ("call", "op", "rand", "ctl")]
         if idx:
             srcs = [_subst(cases[i]["src"], work) for i in idx]
             for s in srcs:
